@@ -2,7 +2,7 @@
 from __future__ import annotations
 
 from ..lib import NMEA2000Decoder, PhysicalQuantities
-from .. import refdb, gen, hist, project
+from .. import refdb, gen, hist, project, wire
 
 ID = "C10"
 LEVEL = "exploration"
@@ -112,6 +112,49 @@ def run_shard(spec, acc):
             claims[rng.choice(sources)] = []
             jump = True
         events = hist.build_history(pool, rng, sources, n_events, claims, p_same_seq=0.35)
+        if c % 3 == 0:
+            # the catch-all definitions (ids such as 0x1ef00ManufacturerProprietaryFastPacketAddressed) and a specific
+            # variant of the same PGN number travel too, and the filter names one of the catch-all ids or its number
+            fb_defs = [d_ for d_ in dbx.defs if d_.fallback and d_.supported and d_.type in ("Single", "Fast") and d_.pgn in (61184, 65280, 126720, 130816)]
+            fb = rng.choice(fb_defs)
+            extra_events = []
+            mno = 100000
+            for rep_ in range(4):
+                body = bytes([0xFE, 0x07]) + bytes(rng.randrange(256) for _ in range(6 if fb.type == "Single" else rng.randint(4, 20)))     # manufacturer 2046: nobody's
+                src_ = rng.choice(sources)
+                dst_ = 255 if ((fb.pgn >> 8) & 0xFF) >= 240 else rng.choice([255, 17])
+                if fb.type == "Single":
+                    extra_events.append([hist.Ev(3, fb.pgn, src_, dst_, body, "single", mno, definition=fb.id)])
+                else:
+                    fr_ = wire.fast_frames(body, (rep_ * 3 + 1) % 8, 0xFF)
+                    extra_events.append([hist.Ev(3, fb.pgn, src_, dst_, f_, "fast", mno, last=(i_ == len(fr_) - 1), definition=fb.id) for i_, f_ in enumerate(fr_)])
+                mno += 1
+            sib = [d_ for d_ in dbx.by_pgn[fb.pgn] if not d_.fallback and d_.supported and d_.fixed_layout and d_.length]
+            for rep_ in range(3):
+                if not sib:
+                    break
+                d_ = rng.choice(sib)
+                p_ = dbx.pack(d_, gen.base_raws(d_, rng, dbx))
+                if dbx.select(d_.pgn, p_) is not d_:
+                    continue
+                pb_ = p_.to_bytes(d_.length, "little")
+                src_ = rng.choice(sources)
+                if d_.type == "Single":
+                    extra_events.append([hist.Ev(3, d_.pgn, src_, 255, pb_, "single", mno, definition=d_.id)])
+                else:
+                    fr_ = wire.fast_frames(pb_, (rep_ * 3 + 2) % 8, 0xFF)
+                    extra_events.append([hist.Ev(3, d_.pgn, src_, 255, f_, "fast", mno, last=(i_ == len(fr_) - 1), definition=d_.id) for i_, f_ in enumerate(fr_)])
+                mno += 1
+            for grp in extra_events:          # whole messages appended at the end: no overlap with the generated streams
+                events.extend(grp)
+            ent = kwargs[f"{kind}_pgns"]
+            if rng.random() < 0.7:
+                ent.append(case_variants(fb.id, rng))
+                ids.add(fb.id.lower())
+            else:
+                ent.append(fb.pgn)
+                nums.add(fb.pgn)
+            acc.count("configurations_naming_a_catch_all_definition")
         if jump and rng.random() < 0.7:
             # often the first thing heard from the silent source is something the filter removes by number
             quiet = [s_ for s_ in sources if not claims[s_]]
